@@ -128,6 +128,28 @@ pub fn profile(name: &str) -> Profile {
             reject_percent: 3,
             long_names: false,
         },
+        "embed" => Profile {
+            name: "embed",
+            queues: 2,
+            steps: 10,
+            weights: [12, 2, 60, 14, 2, 10],
+            lens: vec![(400, 100)],
+            max_batch: 2,
+            explicit_pos_percent: 5,
+            reject_percent: 2,
+            long_names: false,
+        },
+        "recreate" => Profile {
+            name: "recreate",
+            queues: 2,
+            steps: 22,
+            weights: [24, 20, 36, 12, 2, 6],
+            lens: vec![(1, 10), (40, 60), (9000, 30)],
+            max_batch: 3,
+            explicit_pos_percent: 15,
+            reject_percent: 2,
+            long_names: false,
+        },
         "restarts" => Profile {
             name: "restarts",
             queues: 3,
@@ -359,10 +381,30 @@ pub fn generate(profile_name: &str, seed: u64, policy: &str) -> Script {
                     } else {
                         rng.below(max_len as u64) as usize
                     };
+                    let (len, embed) = if prof.name == "embed" && rng.chance(60) {
+                        // payload class Embeds: contains the image of a well-formed frame carrying
+                        // an append for some queue at a position far from the real ones
+                        let plen = 4 + rng.below(20) as usize;
+                        let at = rng.below(60) as usize;
+                        let target = rng.below(prof.queues as u64) as usize;
+                        let frame_len = 7 + 11 + queues[target].len() + 12 + plen;
+                        (
+                            at + frame_len + rng.below(40) as usize,
+                            Some(crate::script::Embed {
+                                at,
+                                q: target,
+                                pos: 5000 + rng.below(1000),
+                                pseed: payload_seed ^ 0x5555,
+                                plen,
+                            }),
+                        )
+                    } else {
+                        (len, None)
+                    };
                     batch.push(Payload {
                         seed: payload_seed,
                         len,
-                        embed: None,
+                        embed,
                     });
                 }
                 let next = model[q].next;
